@@ -520,12 +520,29 @@ def _run_oned(case, ctx):
 # ------------------------------------------------------------------------------------------------
 # models without orientation parameters
 
+def own_iqxy(info):
+    """the model supplies its own Iqxy(qx, qy, ...): the documented way to take full control of the 2-D pattern
+    (kernel_iq.c CALL_IQ_XY); such a model (line, micromagnetic_FF_3D) documents its own 2-D definition and is
+    outside "depends on |q| only", which is about models routed through Iq(|q|)"""
+    from sasmodels import generate
+    if info.Iqxy is not None:
+        return True
+    if callable(info.Iq):
+        return False
+    code = [generate.read_text(f) for f in generate.model_sources(info)]
+    if isinstance(info.c_code, str):
+        code.append(info.c_code)
+    return generate.find_xy_mode(code) == "qxy"
+
+
 def _run_unoriented(case, ctx):
     from sasmodels.direct_model import call_kernel
     r = R()
     name = case["model"]
     m = build.model(name)
     info = m.info
+    if own_iqxy(info):
+        return r.ok(nt=False, outcome="own-Iqxy: outside the clause", branches=["own-Iqxy-skipped"])
     f = 1.0 if ctx.seed == 0 else ctx.factor(3)
     fk = {"model": name, "clause": "unoriented"}
     for a, b in ((0.041, 0.023), (0.019, 0.11), (0.0, 0.07), (0.21, 0.13), (3e-4, 1e-4)):
